@@ -78,6 +78,12 @@ func (a *strAn) caseNormalised(v ssa.Value, depth int) (bool, string) {
 			if g := eng.StaticCallee(call.Common()); g != nil && eng.InModule(g) && g.Blocks != nil {
 				return a.resultNormalised(g, x.Index, call, depth+1)
 			}
+			switch eng.CalleeName(call.Common()) {
+			case "strings.Cut", "strings.CutPrefix", "strings.CutSuffix":
+				if x.Index <= 1 && isString(x.Type()) {
+					return a.caseNormalised(call.Call.Args[0], depth+1) // a substring of the argument
+				}
+			}
 			return false, "result of " + eng.CalleeName(call.Common())
 		}
 		return false, "extract"
@@ -438,6 +444,42 @@ func checkC04(c *Ctx) {
 		naming = append(naming, f)
 	}
 	local := p.Func("pkg/policy", "parseMailboxName")
+	// a naming function may end in `return helper(...)`: the helper's success returns are then
+	// naming results too
+	passThrough := map[*ssa.Return]bool{}
+	for i := 0; i < len(naming); i++ {
+		fn := naming[i]
+		eng.EachInstr(fn, func(in ssa.Instruction) {
+			ret, ok := in.(*ssa.Return)
+			if !ok {
+				return
+			}
+			res := eng.ReturnResults(ret)
+			if len(res) != 2 {
+				return
+			}
+			e0, ok0 := res[0].(*ssa.Extract)
+			e1, ok1 := res[1].(*ssa.Extract)
+			if !ok0 || !ok1 || e0.Tuple != e1.Tuple {
+				return
+			}
+			call, ok := e0.Tuple.(*ssa.Call)
+			if !ok {
+				return
+			}
+			g := eng.StaticCallee(call.Common())
+			if g == nil || eng.FuncPkgPath(g) != eng.FuncPkgPath(fn) || len(g.Blocks) == 0 {
+				return
+			}
+			passThrough[ret] = true
+			for _, h := range naming {
+				if h == g {
+					return
+				}
+			}
+			naming = append(naming, g)
+		})
+	}
 	for _, fn := range naming {
 		nRet := 0
 		var badCase, badEmpty []string
@@ -479,7 +521,13 @@ func checkC04(c *Ctx) {
 		} else {
 			r.Ok("C04/NONEMPTY", cons, p.Pos(fn.Pos()), "%d success returns, all provably non-empty", nRet)
 		}
-		r.Floor("C04/CASE", "success returns of "+cons, nRet, 1)
+		nPass := 0
+		eng.EachInstr(fn, func(in ssa.Instruction) {
+			if ret, ok := in.(*ssa.Return); ok && passThrough[ret] {
+				nPass++
+			}
+		})
+		r.Floor("C04/CASE", "success returns of "+cons, nRet+nPass, 1)
 	}
 	if local != nil {
 		var bad []string
